@@ -35,19 +35,23 @@ def run_history(pattern, shape, nmax, calls, method, crop, bc, prefill, shared):
         frame_buf = np.full(shape, prefill, dtype=np.float32)
         outs_all = (np.full((nmax, 2), -99, dtype=np.int32), np.full((nmax, 2), prefill, dtype=np.float32),
                     np.full((nmax,), prefill, dtype=np.float32), np.full((nmax,), prefill, dtype=np.float32))
+        if method.endswith('strided'):
+            # the output arrays are columns of one result table per kind (non-contiguous views), as a caller collecting results would pass
+            itab, ftab = np.full((nmax, 4), -99, dtype=np.int32), np.full((nmax, 6), prefill, dtype=np.float32)
+            outs_all = (itab[:, 1:3], ftab[:, 0:2], ftab[:, 3], ftab[:, 5])
     for call in calls:
         frame = call['ints'].astype(np.float32)
         n = len(call['peaks'])
         if shared:
             outs = tuple(o[:n] for o in outs_all)
-            if method == 'fast':
+            if method.startswith('fast'):
                 cl.run_fast(pattern, frame, call['peaks'], crop_function=CROPS[crop], crop_bufs=crop_bufs, outs=outs)
             else:
                 cl.run_full(pattern, frame, call['peaks'], bc=bc, crop_function=CROPS[crop], frame_buf=frame_buf, outs=outs)
             res.append(tuple(o.copy() for o in outs))
         else:
             p2 = cl.pattern_from_desc(pattern._verif_desc)
-            if method == 'fast':
+            if method.startswith('fast'):
                 outs = cl.run_fast(p2, frame, call['peaks'], bc=bc, crop_function=CROPS[crop])
             else:
                 outs = cl.run_full(p2, frame, call['peaks'], bc=bc, crop_function=CROPS[crop])
@@ -71,7 +75,7 @@ def history_failure(pattern, shape, nmax, calls, method, crop, bc, prefill):
 
 
 def mk_replay(desc, shape, nmax, calls, method, crop, bc, prefill, fail):
-    return {'kind': 'history', 'call': 'process_frame_%s x %d' % (method, len(calls)),
+    return {'kind': 'history', 'call': 'process_frame_%s x %d' % (method.split('-')[0] + (' (strided output views)' if method.endswith('strided') else ''), len(calls)),
             'args': {'pattern': desc, 'shape': list(shape), 'nmax': nmax, 'method': method, 'crop': crop, 'buffer_count': bc, 'prefill': prefill,
                      'calls': [{'ints': c['ints'].tolist(), 'peaks': [list(map(int, p)) for p in c['peaks']]} for c in calls]},
             'failure': fail}
@@ -116,7 +120,7 @@ def run(ctx):
         ncalls = int(rng.integers(1, 7))
         pattern, desc, shape, nmax, calls = gen_history(rng, ncalls, cmax=4 if h % 2 else 3, smax=24 if h % 2 else 11)
         pattern._verif_desc = desc
-        method = 'fast' if h % 3 != 2 else 'full'
+        method = ('fast' if h % 3 != 2 else 'full') + ('-strided' if h % 4 == 3 else '')
         crop = 'slicing' if h % 2 == 0 else 'per_pixel'
         bc = int(rng.integers(1, nmax + 2))
         prefill = float(rng.choice([0.0, 7.5, np.nan, 1e30, -3.0]))
@@ -140,7 +144,7 @@ def run(ctx):
         if shape[0] <= 10 and shape[1] <= 10 and len(items) < ctx.n(10, 60) and np.isfinite(prefill):
             try:
                 res = run_history(pattern, shape, nmax, calls, method, crop, bc, prefill, True)
-                items.append(dict(pattern=pattern, desc=desc, ints=calls[-1]['ints'], one=1, peaks=calls[-1]['peaks'], method=method,
+                items.append(dict(pattern=pattern, desc=desc, ints=calls[-1]['ints'], one=1, peaks=calls[-1]['peaks'], method=method.split('-')[0],
                                   outs=res[-1], note='last of %d calls, %s, bc=%d, prefill=%s' % (ncalls, crop, bc, prefill)))
             except Exception:  # noqa
                 pass
